@@ -9,7 +9,10 @@ def run(c):
     c.lean(MODULES, THEOREMS, sources=["TLVerif.Codec.Registry"])
     import os
     from vlib.core import ROOT
-    model, hcodec, schemas = cc.prepare(c, cc.corpus(c) + [cc.Schema("annot", [os.path.join(ROOT, "schemas", "annot.tl")], tl2="*", sanity=True)])
+    # `uo`: with --split-internal the factory is one file per first letter of the namespace; here the letters `y` and `z` hold unions only
+    model, hcodec, schemas = cc.prepare(c, cc.corpus(c) + [cc.Schema("annot", [os.path.join(ROOT, "schemas", "annot.tl")], tl2="*", sanity=True),
+                                                          cc.Schema("uo", [os.path.join(ROOT, "schemas", "unionsonly.tl")], tl2="*", sanity=True, split=True),
+                                                          cc.Schema("uons", [os.path.join(ROOT, "schemas", "unionsonly.tl")], tl2="*", sanity=True)])
     for sc in schemas:
         pre = [sc.desc_line()]
         names = sorted({i["tlname"] for i in sc.desc["instances"] if i["kind"] in ("struct", "union") and i.get("tlname")})
@@ -33,6 +36,8 @@ def run(c):
                         if tag in seen_tags:
                             c.oracle_fail(l + " " + n, "registry tag %08x registered twice (%s, %s)" % (tag, n, seen_tags[tag]), l)
                         seen_tags[tag] = n
+            if l.startswith("codec.reg") and a in ("panic", "CRASH"):
+                c.oracle_fail(l, "creating a registered item through the factory (by name / by tag) panics", l)
             if l.startswith("codec.reg") and a.startswith("ok "):
                 p = dict(x.split("=", 1) for x in a.split(" ")[1:])
                 item = p["item"].split(":")
